@@ -109,7 +109,7 @@ class NpCalls:
             return self.np_reduce(interp, st, name, args, kwargs, node)
         if name in ('sqrt', 'square', 'abs', 'absolute', 'exp', 'log', 'log10', 'sin', 'cos', 'tan', 'arcsin', 'arccos',
                     'arctan', 'sign', 'floor', 'ceil', 'round', 'around', 'rint', 'degrees', 'radians', 'deg2rad',
-                    'rad2deg', 'negative', 'isfinite', 'isnan', 'isinf', 'real', 'trunc', 'conj', 'nan_to_num'):
+                    'rad2deg', 'negative', 'isfinite', 'isnan', 'isinf', 'isposinf', 'isneginf', 'real', 'trunc', 'conj', 'nan_to_num'):
             return self.np_elementwise(interp, st, name, args, kwargs, node)
         if name in ('asarray', 'ascontiguousarray', 'asanyarray', 'squeeze', 'atleast_1d', 'atleast_2d', 'copy',
                     'flip', 'fliplr', 'flipud', 'ravel'):
@@ -500,8 +500,10 @@ class NpCalls:
             return out.w(mono=num(1.0).wrap('sign'), signof=x)
         if name in ('degrees', 'radians', 'deg2rad', 'rad2deg'):
             return out.w(mono=m, angle=name)
-        if name in ('isfinite', 'isnan', 'isinf'):
-            return out.w(dtype='bool', ty=x.ty if x.ty == 'ndarray' else 'bool')
+        if name in ('isfinite', 'isnan', 'isinf', 'isposinf', 'isneginf'):
+            kinds = {'isnan': ('nan',), 'isinf': ('posinf', 'neginf'), 'isposinf': ('posinf',), 'isneginf': ('neginf',),
+                     'isfinite': ('finite',)}[name]
+            return AV(ty=x.ty if x.ty == 'ndarray' else 'bool', dtype='bool', deps=d, axes=x.axes, store='fresh', nonfinite_test=frozenset(kinds))
         if name == 'nan_to_num':
             return out.w(geo=g, mono=m, sanitized=True, idx=x.idx, prob=x.prob, energy=x.energy)
         return out
@@ -778,6 +780,22 @@ class NpCalls:
             # running minimum taken from the far end (the table is reversed along the axis): position of the next valid entry
             if along == t['axis'] and x.flipped and along in x.flipped:
                 out = out.w(runmax=True, idxtable=dict(t, back=True))
+        return out
+
+    def np_take(self, interp, st, args, kwargs, node):
+        # np.take(a, indices, axis=k) == a[:, ..., indices] along axis k (a copy)
+        a = as_array(args[0])
+        ind = self.arg(args, kwargs, 1, 'indices')
+        ax = axis_arg(args, kwargs, 2)
+        out = a.only('ty', 'geo', 'idx', 'mono', 'dtype', 'taint', 'origin', 'mono_unknown').w(store='fresh', fresh=True, deps=self.deps_of(args, kwargs))
+        if a.axes is not None and isinstance(ax, int) and -len(a.axes) <= ax < len(a.axes) and ind is not None:
+            k = ax % len(a.axes)
+            if ind.ty in ('int',) and ind.ty != 'ndarray':
+                out = out.w(axes=tuple(x for j, x in enumerate(a.axes) if j != k))
+            else:
+                name = a.axes[k]
+                out = out.w(axes=tuple((x if j != k else (x if x.endswith('~') else x + '~')) for j, x in enumerate(a.axes)))
+        interp.emit('index', node, base=a, index=ind, items=[ind] if ind is not None else [])
         return out
 
     def np_take_along_axis(self, interp, st, args, kwargs, node):
